@@ -25,7 +25,7 @@ CHECKS = {
         design="DESIGN.md §4 C02",
     ),
     "C03": dict(
-        rules="R03.1-R03.7 (+R20.1 bound via C20)",
+        rules="R03.1-R03.8 (+R20.1 bound via C20)",
         what="order of the re-processing pipeline in reprocess_nodes and of the propagation loop; type snapshots read every __eq__ field; component-coverage matrix of the astmerge / deps / astdiff type visitors; the follow-imports walk queues every module found changed (never filtered by the set the finder marks); every daemon check response computes its status by main()'s predicate",
         quant="edit histories checked after every step",
         technique="CFG must-pass-through ordering, sibling cross-check (__eq__ fields vs snapshot reads), component-coverage matrix",
@@ -57,7 +57,7 @@ CHECKS = {
         design="DESIGN.md §4 C06",
     ),
     "C07": dict(
-        rules="R07.1-R07.5",
+        rules="R07.1-R07.8",
         what="commit-before-reply in the worker for both phases; readiness gating by not_ready_count and interface-only done marking in the coordinator; agreement of the step sets of the sequential and the two-phase path; commit before the first broadcast; coordinator-side import errors recorded, shipped for every module of the batch and replayed by the worker",
         quant="schedules of batches over workers",
         technique="CFG must-pass-through queries, guard-chain (control dependence) checks, sibling cross-check of step sets",
